@@ -828,10 +828,20 @@ def decryptor_suite(ctx, w):
         ctx.case('roundtrip', (i, kind, int(comp), alg, tuple(recips), signed, armored), sample=desc)
         small = len(raw) <= 6000
         case0 = dict(desc, op='roundtrip', recips=[list(r) for r in recips], blob=raw.hex() if small else None, want=want if small else None)
+        if small:   # enough to run the whole round trip again (replay encrypts afresh: an encoder defect is not in a recorded blob)
+            case0['plain'] = {'body': body if isinstance(body, str) else body.hex(), 'is_text': isinstance(body, str), 'alg': alg, 'signed': signed,
+                              'kw': {k: (int(v) if k == 'compression' else v) for k, v in kw.items()}}
         # structure: model parse of PGPy's octets vs PGPy's own parse
         with warnings.catch_warnings():
             warnings.simplefilter('ignore')
-            em = pgpy.PGPMessage.from_blob(blob)
+            po = outcome(pgpy.PGPMessage.from_blob, blob)
+        if po[0] != 'ok':
+            ctx.fail('roundtrip', 'PGPy cannot re-parse the message it has just written (%s)' % po[1], dict(case0, recipient=list(recips[0])))
+            mo = d.call('msg_parse', hx(raw))
+            if mo.startswith('ok '):
+                ctx.fail('roundtrip', 'the model parser reads what PGPy wrote but cannot re-parse', dict(case0, model=mo[:200]))
+            continue
+        em = po[1]
         ctx.expect_eq('roundtrip', 'packet structure read by PGPy differs from the model parser', case0, 'ok ' + impl_struct(em), d.call('msg_parse', hx(raw)))
         ctx.expect_eq('roundtrip', 'model re-emission of the parsed packets differs from the octets PGPy wrote', case0, 'ok ' + hx(raw), d.call('msg_reemit', hx(raw)))
         for r in recips:
@@ -1082,6 +1092,26 @@ def replay(ctx, case):
             if not case.get('blob') or case.get('want') is None:
                 return True
             rs = [case['recipient']] if case.get('recipient') else case.get('recips', [])
+            if case.get('plain') is not None:
+                pl = case['plain']
+                kw = dict(pl['kw'])
+                if 'compression' in kw:
+                    kw['compression'] = w.Z(kw['compression'])
+                for _ in range(12):
+                    with warnings.catch_warnings():
+                        warnings.simplefilter('ignore')
+                        m = w.pgpy.PGPMessage.new(pl['body'] if pl['is_text'] else bytes.fromhex(pl['body']), **kw)
+                        if pl['signed'] and 'ed25519' in w.keys:
+                            m |= w.keys['ed25519'].sign(m, created=keypool.T0)
+                    want = canon_plain(m)
+                    recips = [tuple(r) for r in case['recips']]
+                    o = outcome(w.impl_encrypt, m, recips, pl['alg'], bytes(range(KEYLEN[pl['alg']])))
+                    if o[0] != 'ok':
+                        return True
+                    raw = bytes(o[1].__bytes__())
+                    if any(w.impl_decrypt(raw, r) != ('ok', want) for r in recips):
+                        return True
+                return False
             if case.get('point') is not None and rs and rs[0][0] == 'K' and len(case['point']) // 2 != POINT_OCTETS.get(rs[0][1]):
                 # the recorded octets came from the implementation under test at that time: produce fresh ones
                 with warnings.catch_warnings():
